@@ -1,21 +1,23 @@
 (* C01  Native dict files: what is written is what is read back.  Layer (b): quoting / literal extraction.
    Layer (a): the token round trip (end of this file). *)
 
+From Coq Require Import String.
 From Coq Require Import NArith ZArith List Bool.
-From DictIO Require Import Chars Str Value Scalar KeyPath SDict Layout Lexer TokParser TreeSpec NativeSpec QuoteProofs TokProofs.
+From DictIO Require Import Chars Str Value Scalar KeyPath SDict Layout Lexer TokParser TreeSpec NativeSpec E2ESpec QuoteProofs TokProofs E2EProofs.
 Import ListNotations.
 
-(* a string without single quotes, wrapped in single quotes, is found as exactly one single-quoted literal spanning
-   the whole text (whatever else it contains: blanks, delimiters, backslashes, double quotes, non-ASCII) ... *)
-Theorem C01_sq_literal : forall s fuel, no_sq s = true -> (0 < fuel)%nat ->
-  find_quoted fuel c_sq 0 false (sq s) = [(0%nat, (length s + 2)%nat, sq s)].
+(* a string without single quotes, wrapped in single quotes, is matched at its opening quote as exactly one
+   single-quoted literal that ends at its own closing quote -- whatever else it contains (blanks, delimiters,
+   backslashes, double quotes, non-ASCII) and whatever text follows it *)
+Theorem C01_sq_literal : forall s rest, no_sq s = true ->
+  quoted_at c_sq false (sq s ++ rest) = Some (sq s, rest).
 Proof. exact sq_literal_found. Qed.
 Print Assumptions C01_sq_literal.
 
-(* ... likewise for double quotes *)
-Theorem C01_dq_literal : forall s fuel, no_dq s = true -> (0 < fuel)%nat ->
-  find_quoted fuel c_dq 0 false (dq s) = [(0%nat, (length s + 2)%nat, dq s)].
-Proof. exact dq_literal_found. Qed.
+(* ... likewise for double quotes (and the single-quote alternative, tried first, does not match there) *)
+Theorem C01_dq_literal : forall s rest, no_dq s = true ->
+  quoted_at c_sq false (dq s ++ rest) = None /\ quoted_at c_dq false (dq s ++ rest) = Some (dq s, rest).
+Proof. intros s rest H. split; [exact (dq_not_sq_opener s rest) | exact (dq_literal_found s rest H)]. Qed.
 Print Assumptions C01_dq_literal.
 
 (* what is registered for the literal is the string itself *)
@@ -34,13 +36,37 @@ Print Assumptions C01_format_choice.
 
 
 (* ---- layer (a): token hierarchy -> dict / list reconstruction inverts the token grammar ---------------- *)
-(* For every tree (any depth, any width), any rendering of scalars and keys as single plain tokens that the
-   scalar classifier reads back: parsing the token stream of the document reconstructs the tree, same keys in the
-   same order, same nesting of dicts and lists, every leaf re-typed by the classifier. *)
+(* For every tree (any depth, any width) whose keys and leaves are simple tokens, and any rendering of scalars and
+   keys as single plain tokens that the scalar classifier reads back: parsing the token stream of the document
+   reconstructs the tree, same keys in the same order, same nesting of dicts and lists, every leaf re-typed by the
+   classifier.
+   (An earlier version of this statement asked  parse_key (kt k) = Ok k  of EVERY key k, which no rendering can
+   satisfy -- a key that spells a reserved placeholder word is not a plain token -- so it was vacuous; found while
+   proving the end-to-end theorem below.  The hypothesis on keys is now relative to the keys that are simple, and
+   the example after the theorem instantiates all hypotheses.) *)
 Theorem C01_tok_roundtrip : forall (lt : scalar -> str) (kt : key -> str) (nv : scalar -> scalar) kvs,
   (forall v, plain_token (lt v) = true /\ parse_value (lt v) = Ok (nv v)) ->
-  (forall k, plain_token (kt k) = true /\ parse_key (kt k) = Ok k) ->
-  wf (Dict kvs) = true ->
+  (forall k, plain_token (kt k) = true) ->
+  (forall k, simple_key k = true -> parse_key (kt k) = Ok k) ->
+  wf (Dict kvs) = true -> simple_tree (Dict kvs) = true ->
   parse_tokens (toks_doc lt kt kvs) = Ok (kvs_of (map_leaves nv (Dict kvs))).
-Proof. exact tok_roundtrip. Qed.
+Proof. intros lt kt nv kvs Hlt Hkt Hkp. exact (TR.tok_roundtrip_main lt kt nv Hlt Hkt Hkp kvs). Qed.
 Print Assumptions C01_tok_roundtrip.
+
+(* ---- end to end on quote-free documents: writing a dict with NativeFormatter and reading the text with
+   NativeParser returns the dict (leaves re-typed by the classifier): character level, any depth and width;
+   the placeholder counter is untouched and all side tables stay empty *)
+Theorem C01_roundtrip_quote_free : forall kvs dirc count,
+  wf (Dict kvs) = true -> simple_tree (Dict kvs) = true ->
+  parse_string true dirc count (to_string_plain kvs) =
+    Ok (mkParsed (mkSD (kvs_of (map_leaves norm_scalar (Dict kvs))) [] [] [] []) count).
+Proof. exact roundtrip_quote_free. Qed.
+Print Assumptions C01_roundtrip_quote_free.
+
+(* non-vacuity: ints, floats, bools, none, words, int keys, nested dicts, lists of lists and of dicts *)
+Example C01_e2e_example :
+  let d := [(KS (of_string "alpha"), Leaf (SInt 12)); (KI 3, Dict [(KS (of_string "b"), Lst [Leaf (SBool true); Lst [Leaf SNone]; Dict [(KS (of_string "c"), Leaf (SFloat (of_string "1.5")))]]); (KS (of_string "e"), Dict [])]);
+            (KS (of_string "w"), Leaf (SStr (of_string "word.x-1")))] in
+  wf (Dict d) = true /\ simple_tree (Dict d) = true /\
+  parse_string true [] 7 (to_string_plain d) = Ok (mkParsed (mkSD (kvs_of (map_leaves norm_scalar (Dict d))) [] [] [] []) 7).
+Proof. vm_compute. repeat split; reflexivity. Qed.
